@@ -132,7 +132,6 @@ def parseOp (op : String) (args : List Sexp) : Option Op :=
   | "iter", [h] => (handleOf h).map .iter
   | "tup", [h, ks] => do
       let ks ← strsOf ks
-      if ks.isEmpty then Option.none
       pure (.tup (← handleOf h) ks)
   | "apply", [h, f] => do pure (.apply (← handleOf h) (← fnOf f))
   | "slice", [dst, h, a, b, s] => do
@@ -141,8 +140,9 @@ def parseOp (op : String) (args : List Sexp) : Option Op :=
       let ms ← ms.mapM fun m => match cellOf m with
         | some (.bool b) => some b
         | _ => Option.none
-      if ms.isEmpty then Option.none
-      pure (.mask (← handleOf dst) (← handleOf h) ms)
+      -- `d[[]]`: python cannot tell an empty mask from an empty int list (line 385-386: `len(item) == 0`)
+      if ms.isEmpty then pure (.take (← handleOf dst) (← handleOf h) [])
+      else pure (.mask (← handleOf dst) (← handleOf h) ms)
   | "take", [dst, h, .node (.atom "L" :: is)] => do
       let is ← is.mapM fun i => match cellOf i with
         | some (.int n) => some n
@@ -182,9 +182,6 @@ def parseOp (op : String) (args : List Sexp) : Option Op :=
   | "inc0", [dst, h] => do pure (.copy (← handleOf dst) (← handleOf h))
   | _, _ => Option.none
 
-/-- new names that would be swallowed by the constructor's own parameters in `type(self)(**{...})` -/
-def reserved (k : String) : Bool := k == "data" || k == "columns"
-
 /-- destination handles must be live or the next free one -/
 def Op.dstOk (n : Nat) : Op → Bool
   | .new d .. | .slice d .. | .mask d .. | .take d .. | .proj d .. | .call d .. | .relabel d ..
@@ -201,12 +198,6 @@ def renderOut : Out → Option String
 def handle (s : St) (op : String) (args : List Sexp) : Option (St × String) := do
   let o ← parseOp op args
   if !Op.dstOk s.length o then Option.none
-  -- outside the modelled universe: keyword expansion into `dictable(**cols)` with reserved names
-  match o with
-  | .relabel _ h r =>
-      if ((s[h]?.getD []).cols.any fun k => reserved (r.key k)) then Option.none
-  | .proj _ _ ks => if ks.any reserved then Option.none
-  | _ => pure ()
   let (s', out) := step s o
   let r ← renderOut out
   let dump := " ".intercalate (s'.map fun t => t.toVal.render)
